@@ -269,4 +269,20 @@ skipping revealed attributes, breaks it) -/
 theorem common_pass_from_source :
     Gen.commonPassShape = true ∧ Gen.commonHiddenGuard = true := ⟨rfl, rfl⟩
 
+/-- **the verdict on a proof is a function of that proof** (repaired f14e19b): the model's `verify`
+starts the common-attribute table empty for every proof (`verifyTranscript` calls `verifyLoop … []`);
+the library keeps the table in the verifier object, whose `verify` takes `&mut self`, and clears
+it at the start of every call — regenerated from `verifier.rs`. Without the reset a verifier
+that is used again rejects the second valid proof (stream `common`, cases `common/reuse/*`). -/
+theorem common_state_reset_from_source : Gen.commonStateResetPerCall = true := rfl
+
+/-- the model side of the same statement: the table the loop starts from is empty -/
+theorem verify_starts_from_empty_table {G : Type} (m : OvfMode) (common : List String)
+    (creds : List (VerCred G)) (p : Proof G) (nonce : ByteArray)
+    (h1 : p.proofs.length = creds.length) (h2 : allPairsConsistent p.proofs creds = true) :
+    verifyTranscript m common creds p nonce =
+      (verifyLoop m common p.cHash p.proofs creds []).map fun taus =>
+        taus ++ p.cList.map Item.bytes ++ [Item.bytes nonce] := by
+  simp [verifyTranscript, h1, h2]
+
 end CL.C11
